@@ -43,6 +43,7 @@ def strategy_(draw, tier):
         counter[0] += 1
         return counter[0]
     node_default = {}
+    glob_declared = set()   # (collection, variable) that has a default
     declared = {}           # node -> list of defaults declared
     glob_ports = {}
     for p in spec['procs']:
@@ -55,9 +56,26 @@ def strategy_(draw, tier):
                 var = view[-1]
                 gkey = (view[0], var)
                 if gkey not in gdefault:
-                    gdefault[gkey] = fresh()
-                    p['schema'][view[0]]['*'][var]['_default'] = gdefault[gkey]
-                declared.setdefault(key, []).append(gdefault[gkey])
+                    coll = tuple(node[:-(len(view) - 1)]) if False else None
+                    G = [g['node'] for g in p['globs']
+                         if g['view'][0] == view[0]][0]
+                    first = (tuple(G), var) not in glob_declared
+                    if first or draw(st.booleans()):
+                        gdefault[gkey] = fresh()
+                        p['schema'][view[0]]['*'][var]['_default'] = \
+                            gdefault[gkey]
+                        glob_declared.add((tuple(G), var))
+                    else:
+                        # a later declarer of the same glob variable that
+                        # gives no default of its own
+                        gdefault[gkey] = None
+                        leaf = p['schema'][view[0]]['*'][var]
+                        leaf.pop('_default', None)
+                        leaf['_emit'] = True
+                if gdefault[gkey] is not None:
+                    declared.setdefault(key, []).append(gdefault[gkey])
+                else:
+                    declared.setdefault(key, [])
                 continue
             mode = draw(st.sampled_from(['same', 'same', 'own', 'omit']))
             if key not in node_default:
